@@ -13,9 +13,17 @@
    the file length): an address outside the file is [Err], never a guess.  Executable, proof-free; lemmas in
    Proofs/Walk.v, theorems in Props/C05Walk.v.
 
-   NOT covered (the walker answers [Err], the tie counts such files as "not covered"): fractal heaps with an indirect
-   root block, v2 B-trees of depth > 0, new-style (Link Info) groups, filtered chunk contents (deflate is not
-   modelled: the chunk extent is recorded, its decoded size is not checked), global heap collections. *)
+   Also followed (added for the reference corpus, C06, and for the files with new-style groups the library writes, C05):
+     new-style groups (compact link messages; dense: fractal heap direct root block + v2 B-tree type 5 leaf), also in the writer's
+     private layout of the stored link (four cross-structure deviation tags X_group_dataspace_msg .. X_refcount_ignores_dense_links),
+     data layout message versions 1 / 2 (Spec/FormatRef.v) and 4 (single chunk and implicit chunk index), shared datatype messages
+     and attributes with a shared datatype (resolved to the committed datatype's object header; every use counts in its reference
+     count), committed datatypes, the superblock extension.
+   NOT covered (the walker answers [Err] with a reason code, tools/props/c06walk.py REASONS; the ties count such files): fractal
+   heaps with an indirect root block, v2 B-trees of depth > 0, version 4 chunk indexes other than single chunk / implicit (fixed
+   array 48, extensible array 49, v2 B-tree 50), virtual datasets (51), messages in the shared message heap, driver information,
+   filtered chunk contents (deflate is not modelled: the chunk extent is recorded, its decoded size is not checked), global heap
+   collections.  Every structural clause has its own reason code (60 ..). *)
 From HV Require Import Base.Prelude Base.Outcome Base.Bytes Spec.Parse Spec.Format Spec.FormatMsg Spec.FormatNode
   Spec.FormatRef Model.Wellformed.
 From HV Require Export Spec.WalkBase.
